@@ -51,6 +51,7 @@ pub mod c09;
 pub mod c10;
 pub mod c14;
 pub mod c15;
+pub mod c16;
 
 pub fn all() -> Vec<Prog> {
     let mut v = Vec::new();
@@ -61,5 +62,6 @@ pub fn all() -> Vec<Prog> {
     v.extend(c10::all());
     v.extend(c14::all());
     v.extend(c15::all());
+    v.extend(c16::all());
     v
 }
